@@ -1,7 +1,391 @@
-//! C19 operations (op names start with `c19.`)
-#[allow(unused_imports)]
+//! C19 — random sampling (op names start with `c19.`)
+//!
+//! Every op takes the RNG output as an `x`-hex byte string and feeds it to the crate through an
+//! instrumented byte-stream RNG (`Stream`): `fill_bytes` copies the next `len` bytes,
+//! `next_u32` / `next_u64` take the next 4 / 8 bytes little-endian (exactly
+//! `rand_core::impls::next_u{32,64}_via_fill`). A request for more bytes than remain consumes
+//! nothing and fails: the fallible RNG (`TryStream`, a direct `TryRngCore` impl) returns
+//! `Err(Exhausted)`, the infallible one (`PanicStream`, an `RngCore` impl) sets a flag and panics;
+//! the op then prints `exhausted <consumed>`. Results are printed as `<value> <bytes consumed>`.
 use crate::util::*;
+use core::fmt;
+use crypto_bigint::modular::{ConstMontyForm, ConstMontyParams};
+use crypto_bigint::{
+    impl_modulus, BoxedUint, Int, Limb, NonZero, Odd, Random, RandomBits, RandomBitsError, RandomMod,
+    Uint, Wrapping, U128, U256, U64,
+};
+use rand_chacha::ChaCha20Rng;
+use rand_core::{RngCore, SeedableRng, TryRngCore};
+use std::panic::{catch_unwind, AssertUnwindSafe};
 
-pub fn dispatch(_op: &str, _a: &[&str]) -> Option<String> {
-    None
+#[derive(Debug)]
+pub struct Exhausted;
+impl fmt::Display for Exhausted {
+    fn fmt(&self, f: &mut fmt::Formatter<'_>) -> fmt::Result {
+        write!(f, "stream exhausted")
+    }
+}
+
+struct Stream {
+    buf: Vec<u8>,
+    pos: usize,
+    exhausted: bool,
+}
+impl Stream {
+    fn new(buf: Vec<u8>) -> Self {
+        Stream { buf, pos: 0, exhausted: false }
+    }
+    fn take(&mut self, dst: &mut [u8]) -> Result<(), Exhausted> {
+        if self.buf.len() - self.pos < dst.len() {
+            self.exhausted = true;
+            return Err(Exhausted);
+        }
+        dst.copy_from_slice(&self.buf[self.pos..self.pos + dst.len()]);
+        self.pos += dst.len();
+        Ok(())
+    }
+}
+
+/// fallible byte-stream RNG
+struct TryStream(Stream);
+impl TryRngCore for TryStream {
+    type Error = Exhausted;
+    fn try_next_u32(&mut self) -> Result<u32, Exhausted> {
+        let mut b = [0u8; 4];
+        self.0.take(&mut b)?;
+        Ok(u32::from_le_bytes(b))
+    }
+    fn try_next_u64(&mut self) -> Result<u64, Exhausted> {
+        let mut b = [0u8; 8];
+        self.0.take(&mut b)?;
+        Ok(u64::from_le_bytes(b))
+    }
+    fn try_fill_bytes(&mut self, dst: &mut [u8]) -> Result<(), Exhausted> {
+        self.0.take(dst)
+    }
+}
+
+/// infallible byte-stream RNG: panics (after flagging) when the stream is exhausted
+struct PanicStream(Stream);
+impl RngCore for PanicStream {
+    fn next_u32(&mut self) -> u32 {
+        let mut b = [0u8; 4];
+        self.0.take(&mut b).expect("stream exhausted");
+        u32::from_le_bytes(b)
+    }
+    fn next_u64(&mut self) -> u64 {
+        let mut b = [0u8; 8];
+        self.0.take(&mut b).expect("stream exhausted");
+        u64::from_le_bytes(b)
+    }
+    fn fill_bytes(&mut self, dst: &mut [u8]) {
+        self.0.take(dst).expect("stream exhausted")
+    }
+}
+
+/// run an infallible sampler; `exhausted <n>` when the fixture ran dry, re-panic otherwise
+fn infallible<T>(stream: Vec<u8>, f: impl FnOnce(&mut PanicStream) -> T, show: impl Fn(&T) -> String) -> String {
+    let mut rng = PanicStream(Stream::new(stream));
+    let r = catch_unwind(AssertUnwindSafe(|| f(&mut rng)));
+    match r {
+        Ok(v) => format!("{} {}", show(&v), rng.0.pos),
+        Err(e) => {
+            if rng.0.exhausted {
+                format!("exhausted {}", rng.0.pos)
+            } else {
+                std::panic::resume_unwind(e)
+            }
+        }
+    }
+}
+
+/// run a fallible sampler returning `Result<T, Exhausted>`
+fn fallible<T>(
+    stream: Vec<u8>,
+    f: impl FnOnce(&mut TryStream) -> Result<T, Exhausted>,
+    show: impl Fn(&T) -> String,
+) -> String {
+    let mut rng = TryStream(Stream::new(stream));
+    match f(&mut rng) {
+        Ok(v) => format!("{} {}", show(&v), rng.0.pos),
+        Err(Exhausted) => format!("err:RandCore {}", rng.0.pos),
+    }
+}
+
+/// run a fallible bit sampler returning `Result<T, RandomBitsError<Exhausted>>`
+fn fallible_bits<T>(
+    stream: Vec<u8>,
+    f: impl FnOnce(&mut TryStream) -> Result<T, RandomBitsError<Exhausted>>,
+    show: impl Fn(&T) -> String,
+) -> String {
+    let mut rng = TryStream(Stream::new(stream));
+    match f(&mut rng) {
+        Ok(v) => format!("{} {}", show(&v), rng.0.pos),
+        Err(RandomBitsError::RandCore(Exhausted)) => format!("err:RandCore {}", rng.0.pos),
+        Err(RandomBitsError::BitsPrecisionMismatch { bits_precision, integer_bits }) => {
+            format!("err:BitsPrecisionMismatch {} {} {}", bits_precision, integer_bits, rng.0.pos)
+        }
+        Err(RandomBitsError::BitLengthTooLarge { bit_length, bits_precision }) => {
+            format!("err:BitLengthTooLarge {} {} {}", bit_length, bits_precision, rng.0.pos)
+        }
+    }
+}
+
+/// the panicking wrappers (`random_bits`, `random_bits_with_precision`) run on the fallible RNG:
+/// every error is a documented panic
+fn panicking<T>(stream: Vec<u8>, f: impl FnOnce(&mut TryStream) -> T, show: impl Fn(&T) -> String) -> String {
+    let mut rng = TryStream(Stream::new(stream));
+    let v = f(&mut rng);
+    format!("{} {}", show(&v), rng.0.pos)
+}
+
+impl_modulus!(M0, U64, "ffffffff00000001");
+impl_modulus!(M1, U128, "0000000000000001000000000000000d");
+impl_modulus!(M2, U256, "73eda753299d7d483339d80809a1d80553bda402fffe5bfeffffffff00000001");
+impl_modulus!(M3, U256, "ffffffffffffffffffffffffffffffffffffffffffffffffffffffffffffff43");
+impl_modulus!(M4, U64, "0000000000000003");
+
+fn cmf<MOD: ConstMontyParams<N>, const N: usize>(s: Vec<u8>) -> String {
+    infallible(s, |r| ConstMontyForm::<MOD, N>::random(r), |v| uhex(&v.retrieve()))
+}
+fn cmf_try<MOD: ConstMontyParams<N>, const N: usize>(s: Vec<u8>) -> String {
+    fallible(s, |r| ConstMontyForm::<MOD, N>::try_random(r), |v| uhex(&v.retrieve()))
+}
+
+fn fixed<const N: usize>(op: &str, a: &[&str]) -> Option<String> {
+    Some(match (op, a) {
+        ("c19.u.random_mod", [m, s]) => {
+            let m = arg!(Option::<NonZero<Uint<N>>>::from(NonZero::new(arg!(uint::<N>(m)))));
+            infallible(arg!(bytes(s)), |r| Uint::<N>::random_mod(r, &m), |v| uhex(v))
+        }
+        ("c19.u.try_random_mod", [m, s]) => {
+            let m = arg!(Option::<NonZero<Uint<N>>>::from(NonZero::new(arg!(uint::<N>(m)))));
+            fallible(arg!(bytes(s)), |r| Uint::<N>::try_random_mod(r, &m), |v| uhex(v))
+        }
+        ("c19.u.random", [s]) => infallible(arg!(bytes(s)), |r| Uint::<N>::random(r), |v| uhex(v)),
+        ("c19.u.try_random", [s]) => fallible(arg!(bytes(s)), |r| Uint::<N>::try_random(r), |v| uhex(v)),
+        ("c19.i.random", [s]) => infallible(arg!(bytes(s)), |r| Int::<N>::random(r), |v| ihex(v)),
+        ("c19.i.try_random", [s]) => fallible(arg!(bytes(s)), |r| Int::<N>::try_random(r), |v| ihex(v)),
+        ("c19.wrapping.random", [s]) => {
+            infallible(arg!(bytes(s)), |r| Wrapping::<Uint<N>>::random(r), |v| uhex(&v.0))
+        }
+        ("c19.u.try_random_bits", [bl, s]) => {
+            let bl = arg!(dec32(bl));
+            fallible_bits(arg!(bytes(s)), |r| Uint::<N>::try_random_bits(r, bl), |v| uhex(v))
+        }
+        ("c19.u.try_random_bits_wp", [bl, bp, s]) => {
+            let (bl, bp) = (arg!(dec32(bl)), arg!(dec32(bp)));
+            fallible_bits(arg!(bytes(s)), |r| Uint::<N>::try_random_bits_with_precision(r, bl, bp), |v| uhex(v))
+        }
+        ("c19.u.random_bits", [bl, s]) => {
+            let bl = arg!(dec32(bl));
+            panicking(arg!(bytes(s)), |r| Uint::<N>::random_bits(r, bl), |v| uhex(v))
+        }
+        ("c19.u.random_bits_wp", [bl, bp, s]) => {
+            let (bl, bp) = (arg!(dec32(bl)), arg!(dec32(bp)));
+            panicking(arg!(bytes(s)), |r| Uint::<N>::random_bits_with_precision(r, bl, bp), |v| uhex(v))
+        }
+        ("c19.i.try_random_bits", [bl, s]) => {
+            let bl = arg!(dec32(bl));
+            fallible_bits(arg!(bytes(s)), |r| Int::<N>::try_random_bits(r, bl), |v| ihex(v))
+        }
+        ("c19.i.try_random_bits_wp", [bl, bp, s]) => {
+            let (bl, bp) = (arg!(dec32(bl)), arg!(dec32(bp)));
+            fallible_bits(arg!(bytes(s)), |r| Int::<N>::try_random_bits_with_precision(r, bl, bp), |v| ihex(v))
+        }
+        ("c19.nz.random", [s]) => {
+            infallible(arg!(bytes(s)), |r| NonZero::<Uint<N>>::random(r), |v| uhex(v.as_ref()))
+        }
+        ("c19.nz.try_random", [s]) => {
+            fallible(arg!(bytes(s)), |r| NonZero::<Uint<N>>::try_random(r), |v| uhex(v.as_ref()))
+        }
+        ("c19.odd.random", [s]) => {
+            infallible(arg!(bytes(s)), |r| Odd::<Uint<N>>::random(r), |v| uhex(v.as_ref()))
+        }
+        ("c19.odd.try_random", [s]) => {
+            fallible(arg!(bytes(s)), |r| Odd::<Uint<N>>::try_random(r), |v| uhex(v.as_ref()))
+        }
+        _ => return None,
+    })
+}
+
+/// boxed modulus with exactly `n` limbs
+fn bnz(m: &str, n: usize) -> Option<NonZero<BoxedUint>> {
+    NonZero::new(boxed(m, n)?).into()
+}
+
+/// upper 1e-12 tail bound of the chi-square distribution with `k` degrees of freedom
+/// (Laurent–Massart: P[X >= k + 2 sqrt(k x) + 2 x] <= exp(-x), x = ln 1e12)
+fn chi2_bound(k: f64) -> f64 {
+    let x = 12.0 * std::f64::consts::LN_10;
+    k + 2.0 * (k * x).sqrt() + 2.0 * x
+}
+
+fn chi2_verdict(counts: &[u64], draws: u64) -> String {
+    let m = counts.len() as f64;
+    let e = draws as f64 / m;
+    let stat: f64 = counts.iter().map(|&c| (c as f64 - e) * (c as f64 - e) / e).sum();
+    if stat <= chi2_bound(m - 1.0) { "ok".into() } else { "reject".into() }
+}
+
+/// chi-square sanity run on the real crate: `kind` in u1,u2,u4,b2,limb,bits1,bits2
+fn chi2(kind: &str, m: u64, seed: u64, draws: u64) -> Option<String> {
+    if m < 2 || m > 4096 || draws < 100 * m {
+        return Some(BAD.into());
+    }
+    let mut rng = ChaCha20Rng::seed_from_u64(seed);
+    let mut counts = vec![0u64; m as usize];
+    fn idx<const N: usize>(v: &Uint<N>) -> usize {
+        v.as_words()[0] as usize
+    }
+    match kind {
+        "u1" => {
+            let nz = NonZero::new(Uint::<1>::from(m)).unwrap();
+            for _ in 0..draws {
+                counts[idx(&Uint::<1>::random_mod(&mut rng, &nz))] += 1;
+            }
+        }
+        "u2" => {
+            let nz = NonZero::new(Uint::<2>::from(m)).unwrap();
+            for _ in 0..draws {
+                counts[idx(&Uint::<2>::random_mod(&mut rng, &nz))] += 1;
+            }
+        }
+        "u4" => {
+            let nz = NonZero::new(Uint::<4>::from(m)).unwrap();
+            for _ in 0..draws {
+                counts[idx(&Uint::<4>::random_mod(&mut rng, &nz))] += 1;
+            }
+        }
+        "b2" => {
+            let nz = NonZero::new(BoxedUint::from_words([m, 0])).unwrap();
+            for _ in 0..draws {
+                counts[BoxedUint::random_mod(&mut rng, &nz).as_words()[0] as usize] += 1;
+            }
+        }
+        "limb" => {
+            let nz = NonZero::new(Limb(m)).unwrap();
+            for _ in 0..draws {
+                counts[Limb::random_mod(&mut rng, &nz).0 as usize] += 1;
+            }
+        }
+        // top-heavy two-limb modulus m * 2^64: the bucket is the high limb (tests the early-rejection path)
+        "u2hi" => {
+            let nz = NonZero::new(Uint::<2>::from_words([0, m])).unwrap();
+            for _ in 0..draws {
+                counts[Uint::<2>::random_mod(&mut rng, &nz).as_words()[1] as usize] += 1;
+            }
+        }
+        // random_bits with 2^k = m buckets
+        "bits1" | "bits2" => {
+            if !m.is_power_of_two() {
+                return Some(BAD.into());
+            }
+            let bl = m.trailing_zeros();
+            for _ in 0..draws {
+                let v = if kind == "bits1" {
+                    Uint::<1>::random_bits(&mut rng, bl).as_words()[0]
+                } else {
+                    Uint::<2>::random_bits(&mut rng, bl).as_words()[0]
+                };
+                counts[v as usize] += 1;
+            }
+        }
+        _ => return Some(BAD.into()),
+    }
+    Some(chi2_verdict(&counts, draws))
+}
+
+pub fn dispatch(op: &str, a: &[&str]) -> Option<String> {
+    match (op, a) {
+        ("c19.l.random", [s]) => Some(infallible(arg!(bytes(s)), |r| Limb::random(r), |v| lhex(*v))),
+        ("c19.l.try_random", [s]) => Some(fallible(arg!(bytes(s)), |r| Limb::try_random(r), |v| lhex(*v))),
+        ("c19.l.random_mod", [m, s]) => {
+            let m = arg!(Option::<NonZero<Limb>>::from(NonZero::new(arg!(limb(m)))));
+            Some(infallible(arg!(bytes(s)), |r| Limb::random_mod(r, &m), |v| lhex(*v)))
+        }
+        ("c19.l.try_random_mod", [m, s]) => {
+            let m = arg!(Option::<NonZero<Limb>>::from(NonZero::new(arg!(limb(m)))));
+            Some(fallible(arg!(bytes(s)), |r| Limb::try_random_mod(r, &m), |v| lhex(*v)))
+        }
+        ("c19.nzl.random", [s]) => {
+            Some(infallible(arg!(bytes(s)), |r| NonZero::<Limb>::random(r), |v| lhex(*v.as_ref())))
+        }
+        ("c19.b.random_mod", [n, m, s]) => {
+            let m = arg!(bnz(m, arg!(dec(n))));
+            Some(infallible(arg!(bytes(s)), |r| BoxedUint::random_mod(r, &m), |v| bhexlen(v)))
+        }
+        ("c19.b.try_random_mod", [n, m, s]) => {
+            let m = arg!(bnz(m, arg!(dec(n))));
+            Some(fallible(arg!(bytes(s)), |r| BoxedUint::try_random_mod(r, &m), |v| bhexlen(v)))
+        }
+        ("c19.b.try_random_bits", [bl, s]) => {
+            let bl = arg!(dec32(bl));
+            Some(fallible_bits(arg!(bytes(s)), |r| BoxedUint::try_random_bits(r, bl), |v| bhexlen(v)))
+        }
+        ("c19.b.try_random_bits_wp", [bl, bp, s]) => {
+            let (bl, bp) = (arg!(dec32(bl)), arg!(dec32(bp)));
+            Some(fallible_bits(
+                arg!(bytes(s)),
+                |r| BoxedUint::try_random_bits_with_precision(r, bl, bp),
+                |v| bhexlen(v),
+            ))
+        }
+        ("c19.b.random_bits", [bl, s]) => {
+            let bl = arg!(dec32(bl));
+            Some(panicking(arg!(bytes(s)), |r| BoxedUint::random_bits(r, bl), |v| bhexlen(v)))
+        }
+        ("c19.b.random_bits_wp", [bl, bp, s]) => {
+            let (bl, bp) = (arg!(dec32(bl)), arg!(dec32(bp)));
+            Some(panicking(arg!(bytes(s)), |r| BoxedUint::random_bits_with_precision(r, bl, bp), |v| bhexlen(v)))
+        }
+        ("c19.oddb.random", [bl, s]) => {
+            let bl = arg!(dec32(bl));
+            Some(panicking(arg!(bytes(s)), |r| Odd::<BoxedUint>::random(r, bl), |v| bhexlen(v.as_ref())))
+        }
+        ("c19.cmf.random", [id, s]) => {
+            let s = arg!(bytes(s));
+            Some(match *id {
+                "0" => cmf::<M0, 1>(s),
+                "1" => cmf::<M1, 2>(s),
+                "2" => cmf::<M2, 4>(s),
+                "3" => cmf::<M3, 4>(s),
+                "4" => cmf::<M4, 1>(s),
+                _ => BAD.into(),
+            })
+        }
+        ("c19.cmf.try_random", [id, s]) => {
+            let s = arg!(bytes(s));
+            Some(match *id {
+                "0" => cmf_try::<M0, 1>(s),
+                "1" => cmf_try::<M1, 2>(s),
+                "2" => cmf_try::<M2, 4>(s),
+                "3" => cmf_try::<M3, 4>(s),
+                "4" => cmf_try::<M4, 1>(s),
+                _ => BAD.into(),
+            })
+        }
+        ("c19.chi2", [kind, m, seed, draws]) => {
+            chi2(kind, arg!(dec(m)) as u64, arg!(dec(seed)) as u64, arg!(dec(draws)) as u64)
+        }
+        _ if (op.starts_with("c19.u.")
+            || op.starts_with("c19.i.")
+            || op.starts_with("c19.nz.")
+            || op.starts_with("c19.odd.")
+            || op.starts_with("c19.wrapping."))
+            && !a.is_empty() =>
+        {
+            let n = arg!(dec(a[0]));
+            let rest = &a[1..];
+            match n {
+                1 => fixed::<1>(op, rest),
+                2 => fixed::<2>(op, rest),
+                3 => fixed::<3>(op, rest),
+                4 => fixed::<4>(op, rest),
+                8 => fixed::<8>(op, rest),
+                _ => Some("unsupported-width".to_string()),
+            }
+        }
+        _ => None,
+    }
 }
